@@ -33,6 +33,6 @@ PROPS = {
     'C17': {'gens': ['c17'], 'configs': C(['default', 'int64'])},
     'C18': {'gens': ['c18'], 'configs': C(['default', 'int64'])},
     'C20': {'gens': ['c20'], 'configs': C(['default', 'int64', 'tsan'], ['default', 'asm', 'int128struct', 'int64', 'verify', 'tsan']),
-            'audit_statics': True},
+            'translate': ['statics']},
     'C19': {'gens': ['c19'], 'configs': C(['default', 'int64'])},
 }
